@@ -1,4 +1,4 @@
-import FpgoVerif.Proofs.C10Inv
+import FpgoVerif.Proofs.C10Log
 import FpgoVerif.Gen.Skeletons
 import FpgoVerif.Gen.C10Facts
 /-! Property theorems for C10 — "Publisher delivers each value exactly once per live subscription, in
@@ -71,6 +71,27 @@ theorem C10_once (grow : Nat → Nat) (s : State) (hr : Reach grow s) (r : PubRe
   · intro x
     rw [count_of_sorted hs]; split <;> omega
 
+/-- **C10_once_log** — the same statement read off the GLOBAL log of all deliveries (`s.log`: one entry per
+    OnNext invocation / Post, whoever made it): the entries that belong to a finished Publish call `r`
+    (`dlOf s.log r.f.pid`) are exactly its snapshot, hence (1) exactly once for a subscription registered
+    before and after, (2) never after a completed Unsubscribe, (3) at most once, (4) in subscription order.
+    Call ids are unique among live and finished calls (`PInv`), so no other call contributes entries. -/
+theorem C10_once_log (grow : Nat → Nat) (s : State) (hr : Reach grow s) (r : PubRec) (hmem : r ∈ s.ended) :
+    dlOf s.log r.f.pid = r.f.snap ∧
+    (∀ x, 0 < x → x < r.f.n0 → x ∈ r.regEnd → (dlOf s.log r.f.pid).count x = 1) ∧
+    (∀ x ∈ r.f.done0, (dlOf s.log r.f.pid).count x = 0) ∧
+    (∀ x, (dlOf s.log r.f.pid).count x ≤ 1) ∧
+    (dlOf s.log r.f.pid).Pairwise (· < ·) := by
+  have h := C10_once grow s hr r hmem
+  rw [(PInv_reach grow hr).fin r hmem]
+  exact ⟨h.2.2.2.2.2, h.1, h.2.1, h.2.2.1, h.2.2.2.1⟩
+
+/-- while a Publish is running, its part of the global log is the prefix of the snapshot delivered so far -/
+theorem C10_log_running (grow : Nat → Nat) (s : State) (hr : Reach grow s) (t : Nat) (f : PubF)
+    (hf : .pub f ∈ s.stacks t) : dlOf s.log f.pid = f.snap.take f.k := by
+  rw [(PInv_reach grow hr).live t f hf]
+  exact ((Inv_reach grow hr).frames t _ hf).dl
+
 /-- at every moment of a running Publish: nobody invoked twice, subscription order, only snapshot members -/
 theorem C10_once_running (grow : Nat → Nat) (s : State) (hr : Reach grow s) (t : Nat) (f : PubF)
     (hf : .pub f ∈ s.stacks t) :
@@ -93,6 +114,42 @@ theorem C10_unsubscribed_stays_out (grow : Nat → Nat) (s : State) (hr : Reach 
     (∀ x ∈ s.unsubDone, x ∉ content s.heap s.subs) ∧ (content s.heap s.subs).Pairwise (· < ·) := by
   have inv := Inv_reach grow hr
   exact ⟨fun x hx => (inv.done x hx).2.2, inv.wf.sorted⟩
+
+/-- **C10_map_partial** — Map(fn) registers a forwarding subscription `x` whose OnNext(v) is
+    `next.Publish(fn v)` (closing theorem `C10_skel_Map`: `func{callfn(fn) call(Publish)} call(Subscribe)`).
+    For every finished Publish(v) of the origin, the global log contains exactly ONE delivery to `x`, and it
+    carries the value `v` of that call — so `next.Publish(fn v)` is called exactly once per `v` of the origin.
+    PARTIAL: the composition with the derived publisher's own transition system (its C10_once) is argued on
+    paper and exercised by the Map-chain correspondence (depth 1–3), not proved in Lean. -/
+theorem C10_map_partial (grow : Nat → Nat) (s : State) (hr : Reach grow s) (r : PubRec) (hmem : r ∈ s.ended)
+    (x : Nat) (h0 : 0 < x) (hbefore : x < r.f.n0) (hstill : x ∈ r.regEnd) :
+    ((s.log.filter (fun e => e.1 = r.f.pid ∧ e.2.1 = x)).map (fun e => e.2.2.1)) = [r.f.val] := by
+  have hcount := (C10_once_log grow s hr r hmem).2.1 x h0 hbefore hstill
+  have hval := (PInv_reach grow hr).finV r hmem
+  have hlen : (s.log.filter (fun e => e.1 = r.f.pid ∧ e.2.1 = x)).length = 1 := by
+    rw [← hcount]
+    unfold dlOf
+    rw [List.count_reverse, List.count_eq_countP, List.countP_map, List.countP_eq_length_filter, List.filter_filter]
+    congr 1
+    apply List.filter_congr
+    intro e _
+    by_cases h1 : e.2.1 = x
+    · simp [h1]
+    · simp [h1]
+  cases hl : s.log.filter (fun e => e.1 = r.f.pid ∧ e.2.1 = x) with
+  | nil => rw [hl] at hlen; cases hlen
+  | cons e rest =>
+    rw [hl] at hlen
+    have hrest : rest = [] := by
+      cases rest with
+      | nil => rfl
+      | cons _ _ => simp at hlen
+    subst hrest
+    have hm : e ∈ s.log.filter (fun e => e.1 = r.f.pid ∧ e.2.1 = x) := by rw [hl]; simp
+    rw [List.mem_filter] at hm
+    have hp : e.1 = r.f.pid := (of_decide_eq_true hm.2).1
+    have := hval e hm.1 hp
+    simp [this]
 
 /-- **C10_handler** — with SubscribeOn(h) a delivery is exactly one Post (the `deliver` step appends the
     subscription to `f.dl` and the triple to `posted`/`mailbox` in one step, so `C10_once` counts Posts), and
